@@ -1078,6 +1078,9 @@ impl EvCell {
         let view = x.sim.client_view(c);
         if self.oracles.c09 && x.sim.clients[c].conn.is_some() {
             x.sim.check_confirmed(c, &view).map_err(|v| self.own(v))?;
+            if self.cfg.track {
+                x.sim.check_mutate_ticks(c, &view).map_err(|v| self.own(v))?;
+            }
         }
         let mut h = std::collections::hash_map::DefaultHasher::new();
         (c, &view, x.sim.in_flight_digest()).hash(&mut h);
